@@ -389,6 +389,45 @@ func checkC16(c *Ctx) {
 		r.Check(okCert && okVerify, "C16.3", "server: presents certsFromSeed #1 and verifies the peer against #0", f.Pos(), fnName(f), "roles consistent with the dialer", "the stand-alone server swaps the certificate roles: no handshake with the matching dialer completes")
 	}
 
+	// ---- C16.7 every accept waits on a channel of its own
+	r.Rule("C16.7", "the channel registered for a secret is made for that registration", 1)
+	{
+		n := 0
+		for _, f := range fns {
+			if fnPkgPath(f) != repoMod+"/"+dt {
+				continue
+			}
+			eachInstr(f, func(in ssa.Instruction) {
+				mu, ok := in.(*ssa.MapUpdate)
+				if !ok {
+					return
+				}
+				ld, isLoad := mu.Map.(*ssa.UnOp)
+				if !isLoad {
+					return
+				}
+				if o, fld, ok := fieldOwner(ld.X); !ok || o != "dtls.Listener" || fld != "connMap" {
+					return
+				}
+				n++
+				v := mu.Value
+				for {
+					if ct, ok := v.(*ssa.ChangeType); ok {
+						v = ct.X
+						continue
+					}
+					break
+				}
+				_, fresh := v.(*ssa.MakeChan)
+				r.Check(fresh, "C16.7", fnName(f)+": the accept channel stored for a secret is made in this registration", in.Pos(), fnName(f), "make(chan net.Conn, 1)",
+					"the channel registered for a secret is "+firstN(pathOf(mu.Value), 60)+", not one made for this registration: a connection left in (or later sent to) a channel that served another secret is handed to this caller")
+			})
+		}
+		if n == 0 {
+			r.Unk("C16.7", "Listener.connMap writes", token.NoPos, "", "no store into Listener.connMap found")
+		}
+	}
+
 	// ---- C16.4
 	r.Rule("C16.4", "data that arrives with an error is delivered first; heartbeats are filtered before delivery", 4)
 	if f := c.fn("C16.4", dt, "hbConn", "recvLoop"); f != nil {
@@ -427,10 +466,15 @@ func checkC16(c *Ctx) {
 			if len(sends) == 0 {
 				r.Unk("C16.4", "recvLoop: delivery to recvCh", f.Pos(), fnName(f), "send not found")
 			} else {
-				sl := sends[len(sends)-1]
-				sel := sl.site()
-				g := guardedDeepM(sl, func(cnd string, pol bool) bool { return !pol && strings.HasPrefix(cnd, "bytes.Equal(c.hb, ") })
-				r.Check(g, "C16.4", "recvLoop: delivery only for messages that are not the heartbeat", sel.Pos(), fnName(f), "dominated by !bytes.Equal(c.hb, buffer[:n])", "keep-alive heartbeats can surface as data on the reader's side")
+				for i, sl := range sends {
+					sel := sl.site()
+					g := guardedDeepM(sl, func(cnd string, pol bool) bool { return !pol && strings.HasPrefix(cnd, "bytes.Equal(c.hb, ") })
+					title := "recvLoop: delivery only for messages that are not the heartbeat"
+					if i < len(sends)-1 {
+						title += fmt.Sprintf(" (hand-over %d of %d)", i+1, len(sends))
+					}
+					r.Check(g, "C16.4", title, sel.Pos(), fnName(f), "dominated by !bytes.Equal(c.hb, buffer[:n])", "keep-alive heartbeats can surface as data on the reader's side")
+				}
 			}
 		}
 	}
